@@ -122,9 +122,23 @@ def run(ctx):
             )
     # -------------------------------------------------------------- announce
     sdd = index.func("cdd.shared.defaults_utils.set_default_doc")
-    tpl = [n.value for n in iter_own(sdd.node) if isinstance(n, ast.Constant) and isinstance(n.value, str) and "efault" in n.value and "{default}" in n.value]
+    import re as _re
+
+    # the template that splices the announce between the description and the default: a format template with (at
+    # least) two fields and the word "efault" in its literal text, whatever the fields are called
+    tpl = [
+        n.func.value.value
+        for n in iter_own(sdd.node)
+        if isinstance(n, ast.Call)
+        and isinstance(n.func, ast.Attribute)
+        and n.func.attr == "format"
+        and isinstance(n.func.value, ast.Constant)
+        and isinstance(n.func.value.value, str)
+        and "efault" in _re.sub(r"\{[^{}]*\}", "", n.func.value.value)
+        and len(_re.findall(r"(?<!\{)\{[^{}]*\}(?!\})", n.func.value.value)) >= 2
+    ]
     ctx.need(len(tpl) == 1, "cannot find the default announce template in set_default_doc: {}".format(tpl))
-    announce = tpl[0].replace("{doc}", "").replace("{default}", "").lstrip()
+    announce = _re.sub(r"\{[^{}]*\}", "", tpl[0]).lstrip()
     low = announce.casefold()
     ok = any(low == v.casefold() or low.startswith(v.casefold()) or v.casefold().startswith(low) and low.strip() for v in variants)
     exact = low in {v.casefold() for v in variants}
